@@ -49,7 +49,7 @@ def _stub_v1():
   sys.modules['brax.v1.envs'] = e
 
 
-def make_env(R):
+def make_env(R, carry=False):
   import jax
   from jax import numpy as jp
   from brax.envs.base import Env, State
@@ -70,6 +70,10 @@ def make_env(R):
       t = ps['t']
       i = ps['k'] % R
       done = (action[i] > 0.5).astype(jp.float64)
+      if carry:
+        # like the bundled envs that never write `done` themselves (fast,
+        # reacher, pusher, ...): the incoming flag is carried through
+        done = jp.maximum(state.done, done)
       reward = 2.0 ** (-(t + 1))
       nps = {'t': t + 1, 'tag': ps['tag'], 'k': ps['k'] + 1}
       obs = jp.stack([t + 1, ps['tag']])
@@ -94,12 +98,13 @@ def make_env(R):
 
 class RefMember:
   """Boring per-member reference for wrap(env, L, R) + EvalWrapper."""
-  __slots__ = ('L', 'R', 'tag', 'root', 't', 'k', 'steps', 'done', 'trunc',
+  __slots__ = ('carry', 'L', 'R', 'tag', 'root', 't', 'k', 'steps', 'done', 'trunc',
                'reward', 'm2', 'active', 'ep_reward', 'ep_m2', 'ep_steps',
                'events')
 
-  def __init__(self, L, R, tag, root):
+  def __init__(self, L, R, tag, root, carry=False):
     self.L, self.R, self.tag, self.root = L, R, tag, root
+    self.carry = carry
     self.t = 0
     self.k = 0
     self.steps = 0
@@ -128,7 +133,7 @@ class RefMember:
       rew += 2.0 ** (-(self.t + 1))
       self.t += 1
       self.k += 1
-      env_done = letter[i]
+      env_done = max(env_done, letter[i]) if self.carry else letter[i]
     self.m2 = 3.0 * self.t
     self.reward = rew
     self.steps += self.R
@@ -196,13 +201,14 @@ def _expected(refs):
 class WrapSystem:
   """training.wrap(Scripted, L, R) + EvalWrapper, batch of members."""
 
-  def __init__(self, L, R, seed=0):
+  def __init__(self, L, R, seed=0, carry=False):
     import jax
     from jax import numpy as jp
     from brax.envs.wrappers import training
     self.jax, self.jp = jax, jp
     self.L, self.R = L, R
-    env = make_env(R)
+    self.carry = carry
+    env = make_env(R, carry)
     self.wrapped = training.wrap(env, episode_length=L, action_repeat=R)
     self.env = training.EvalWrapper(self.wrapped)
     self.letters = [tuple(l) for l in itertools.product((0, 1), repeat=R)]
@@ -213,7 +219,7 @@ class WrapSystem:
   def reset(self):
     st = self._reset(self.keys)
     tags = np.asarray(self.keys)[:, -1].astype(np.float64)
-    refs = [RefMember(self.L, self.R, float(tags[i]), i)
+    refs = [RefMember(self.L, self.R, float(tags[i]), i, self.carry)
             for i in range(NROOTS)]
     return st, refs
 
@@ -261,12 +267,13 @@ def _viol(res, L, R, seed, probs, hists, refs, kind='tree'):
     res['violations'].append(dict(
         key='C15:' + f, what=what,
         case=dict(kind=kind, L=L, R=R, seed=seed, root=refs[i].root,
+                  carry=refs[i].carry,
                   history=[list(l) for l in hists[i]])))
 
 
 def _explore(task, res):
   L, R, seed = task['L'], task['R'], task['seed']
-  s = WrapSystem(L, R, seed)
+  s = WrapSystem(L, R, seed, task.get('carry', False))
   st, refs = s.reset()
   hists = [()] * len(refs)
   probs = s.compare(st, refs, hists, 'after reset')
@@ -289,7 +296,7 @@ def _explore(task, res):
     seen |= set(r.canon() for r in refs)
   res['paths'] += len(refs)
   res['nontrivial'] += sum(1 for r in refs if r.events > 0)
-  res['outcomes'] |= set((L, R) + r.canon()[:4] for r in refs)
+  res['outcomes'] |= set((L, R, s.carry) + r.canon()[:4] for r in refs)
   mid = len(refs) // 2
   res['samples'].append(dict(L=L, R=R, root=refs[mid].root,
                              history=[list(l) for l in hists[mid]],
@@ -495,6 +502,9 @@ def tasks(tier, seed):
       depth = max(1, dec // R)
       ts.append(dict(name='tree L=%d R=%d' % (L, R), kind='tree', L=L, R=R,
                      depth=depth, bfs=40, cost=2 ** (R * depth)))
+      ts.append(dict(name='tree-carry L=%d R=%d' % (L, R), kind='tree', L=L,
+                     R=R, carry=True, depth=max(1, (dec - 2) // R), bfs=40,
+                     cost=2 ** (R * max(1, (dec - 2) // R))))
       ts.append(dict(name='unroll L=%d R=%d' % (L, R), kind='unroll', L=L, R=R,
                      cost=2 ** (L + R) * 3))
   return ts
@@ -527,7 +537,7 @@ def replay(rec):
                                               res['violations'])
   # plain re-execution of one history as a batch of one member (plus the same
   # history in a batch with its roots) -- no explorer
-  s = WrapSystem(c['L'], c['R'], c['seed'])
+  s = WrapSystem(c['L'], c['R'], c['seed'], c.get('carry', False))
   st, refs = s.reset()
   hists = [()] * len(refs)
   lines = []
